@@ -11,7 +11,7 @@ from spec.net_ref import valid_node, valid_address, level, level_addr, next_hop,
 from spec.net_state import net_schema, net_inv, node_ok, pa, NETPOL
 from spec.c07 import (POL, POL_UPD, home_ok, req_wtp, req_write, req_update, havoc_radio_io, havoc_tx_cfg, havoc_update,
                       havoc_frag, frag_fixed, inv_retry_loop, havoc_radio_io_ce, io_fixed_hdr, target_ok, frame_valid_if,
-                      abs_tx_standby, inv_ack_wait, fixed_cfg, LOOPS_WTP)
+                      abs_tx_standby, inv_ack_wait, fixed_cfg, LOOPS_WTP, ds_latched)
 from spec.c11 import ref_header_pack, frame_schema, header_schema
 from spec.c06 import Msg, msg_schema, msg_ok, is_frag, frag_type, frag_reserved, frag_body
 
@@ -43,9 +43,10 @@ def frag_frame(self, k, total, msg_t):
     return hdr + msg[24 * k: min(24 * k + 24, len(msg))]
 
 
-def inv_frags(self, k_, total, msg_len, msg_t, is_multicast):
+def inv_frags(self, k_, total, msg_len, msg_t, is_multicast, result):
     hw = self._rf24._spi.hw
-    return (home_ok(self) and (hw.reg[0] & 3) == 2 and msg_len == len(self.frame_buf.message)
+    return (implies(k_ >= 1, isinstance(result, bool) and result and ds_latched(self))     # the loop goes on only after an accepted fragment
+            and home_ok(self) and (hw.reg[0] & 3) == 2 and msg_len == len(self.frame_buf.message)
             and 24 * (total - 1) < msg_len and msg_len <= 24 * total and msg_len > 24
             and 0 <= msg_t and msg_t <= 255 and total <= 255
             and hw.air_n == k_
@@ -74,6 +75,9 @@ def ens_wtp_air(self, old_self, result, exc, to_node, to_pipe, is_multicast):
         return False
     if to_node == old_self._addr and not bool(is_multicast):
         return hw.air_n == 0
+    # the value returned IS the fate of the (last) frame: True iff the radio reports it sent (s78)
+    if not (isinstance(result, bool) and result == ds_latched(self)):
+        return False
     target = pa(old_self, to_node, to_pipe)
     sent_ok = hw.air_n >= 1 and bytes(hw.air_addr) == target and hw.air_aa == ite(bool(is_multicast), 0, 1)
     if n <= 24:
@@ -84,7 +88,7 @@ def ens_wtp_air(self, old_self, result, exc, to_node, to_pipe, is_multicast):
 
 LOOPS_AIR = {
     ("mixins:NetworkMixin._write_to_pipe", 0): LoopSpec("spec.c05:inv_frags", havoc=["spec.c07:havoc_frag"], frame="spec.c07:frag_fixed"),
-    ("mixins:NetworkMixin._write_to_pipe", 1): LoopSpec("spec.c05:inv_retry_air", havoc=["spec.c05:havoc_retry"], frame="spec.c05:retry_fixed"),
+    ("mixins:NetworkMixin._write_to_pipe", 1): LoopSpec("spec.c05:inv_retry_air", havoc=["spec.c05:havoc_retry"], frame="spec.c05:retry_fixed", variant="spec.c07:var_retries"),
 }
 
 
@@ -112,10 +116,12 @@ def retry_fixed(self):
 def abs_tx_standby_air(self, delta_time):
     """_tx_standby only retransmits (resend): the air log of new frames is untouched"""
     hw = self._rf24._spi.hw
-    require(home_ok(self) and (hw.reg[0] & 3) == 2, "_tx_standby: TX mode, radio_home")
+    require(home_ok(self) and (hw.reg[0] & 3) == 2 and not ds_latched(self), "_tx_standby: TX mode, radio_home, the frame has just failed")
     havoc_retry(self)
     assume(home_ok(self))
-    return oracle_int(0, 1) == 1
+    ok = oracle_int(0, 1) == 1
+    assume(ok == ds_latched(self))        # C07._tx_standby.fate
+    return ok
 
 
 # ------------------------------------------------------------------ _write: NETWORK_ACK emit / wait (C13), multicast (C14)
@@ -432,17 +438,17 @@ CONTRACTS = [
     Contract("C05._write_to_pipe.air", M + "_write_to_pipe",
              {"self": net_schema(), "to_node": Int(0, 4095), "to_pipe": Int(0, 5), "is_multicast": Bool()},
              requires=[R + "req_wtp_air"], ensures=[("air", R + "ens_wtp_air")], raises=(), policy=POL_AIR, loops=LOOPS_AIR,
-             props=["C05", "C11", "C14"], replayable=False, timeout_ms=60000),
+             props=["C05", "C11", "C14", "C13"], replayable=False, timeout_ms=60000),
     Contract("C13._write", M + "_write", {"self": rec_schema(), "write_direct": Int(0, 4095), "send_type": Int(0, 4)},
              requires=[R + "req_write_rec"], ensures=[("network_ack", R + "ens_write_ack"), ("multicast", R + "ens_write_multicast")],
              raises=(), policy=POL_W,
              loops={(M + "_write", 0): LoopSpec(R + "inv_ack_wait_rec", havoc=[R + "havoc_update_rec"], frame=R + "wait_fixed",
-                                                entry=R + "entry_ack_deadline")},
+                                                entry=R + "entry_ack_deadline", variant="spec.c07:var_rx_deadline")},
              props=["C13", "C14", "C05"], replayable=False),
     Contract("C14.multicast", M + "multicast",
              {"self": rec_schema(extra={"g_id0": Int(0, 0xFFFF)}), "message": OneOf(Bytes(0, 6000), ByteArray(0, 6000)), "message_type": Int(0, 255), "level": OneOf(Const(None), Int())},
              setup=[R + "setup_next_id"], requires=[R + "req_multicast"], ensures=[("refines", R + "ens_multicast")], raises=("ValueError",), policy=POL_PUBREC,
-             props=["C14"], replayable=False),
+             props=["C14", "C04"], replayable=False),   # C04: "a multicast addressed to that level is transmitted to exactly that address" (seed s72)
     Contract("C05.write", "rf24_network:RF24Network.write",
              {"self": rec_schema(), "frame": frame_schema(True, 6000), "traffic_direct": Const(0o70)},
              requires=[R + "req_net_write"], ensures=[("refines", R + "ens_net_write")], raises=("ValueError", "AttributeError"),
